@@ -19,6 +19,7 @@
 // output:  O <per program: outputs on train rows then query rows>  R <results>
 //   T: q <pred>...  t <pred>...  acc <hex>  fit <hex|->  l <pred>... (lambdify'ed model on the queries)
 //      [var <hex>... per-class variance, gauss/ind only]
+//      [mat <rows> <cols> <counts>..  cls <slot classes>..  slots <slot of each query, then of each train row>, dyn/ind only]
 //   H: after each op  "| <slot>=<pred>,<pred>.. <slot>=..."
 //   pred: regression a value token; classification <label>/<hex64 sureness>
 #include <algorithm>
@@ -239,6 +240,19 @@ std::string t_case(const casedata &c, MK mk, EV *ev)
   out += " l";
   if (lam)
     for (const auto &r : c.query) out += " " + predict_dyn(lam.get(), mk_example(r), cls);
+  if constexpr (std::is_same_v<M, dyn_slot_lambda_f<IND>>)
+  {
+    // internal tables: the python oracle recomputes the slot -> class rule from them
+    out += " mat " + std::to_string(m->slot_matrix_.rows()) + " " + std::to_string(m->slot_matrix_.cols());
+    for (std::size_t i(0); i < m->slot_matrix_.rows(); ++i)
+      for (std::size_t j(0); j < m->slot_matrix_.cols(); ++j)
+        out += " " + std::to_string(m->slot_matrix_(i, j));
+    out += " cls";
+    for (auto cl : m->slot_class_) out += " " + std::to_string(cl);
+    out += " slots";
+    for (const auto &r : c.query) out += " " + std::to_string(m->slot(mk_example(r)));
+    for (const auto &e : d) out += " " + std::to_string(m->slot(e));
+  }
   if constexpr (std::is_same_v<M, gaussian_lambda_f<IND>>)
   {
     // per-class statistics the confidences are computed from
